@@ -641,6 +641,98 @@ reg(Spec(
     technique="sanitizers (ASan+UBSan, libstdc++ assertions, checked STL) on "
               "the real example sources + metamorphic solution oracles"))
 
+# ----------------------------------------------------------------------- C09
+MEM_KINDS = ("asan:", "ubsan:", "glibcxx-assertion", "glibcxx-debug", "SIGSEGV",
+             "SIGBUS", "SIGFPE", "SIGILL", "memcheck:", "signal-")
+
+
+def san_runs(tier, seed, fl, scale=1.0, with_expr=True, with_examples=True):
+    """every driver of this framework in one sanitizer flavour"""
+    def n(qk, th):
+        return max(2, int(q(tier, qk, th) * scale))
+    runs = [
+        RunSpec("gen", "d", fl, n(12000, 200000)),
+        RunSpec("gen", "Q", fl, n(6000, 60000)),
+        RunSpec("eval", "d", fl, n(16000, 200000)),
+        RunSpec("pool", "d", fl, n(640, 12000)),
+        RunSpec("pool", "Q", fl, n(192, 3000)),
+        RunSpec("ops", "d", fl, n(60000, 600000)),
+        RunSpec("grids", "d", fl, n(80000, 1000000)),
+        RunSpec("access", "d", fl, access_cases(q(tier, 7, 10)),
+                params={"maxn": q(tier, 7, 10)}),
+        RunSpec("validate", "d", fl, n(1200, 40000),
+                params={"gridblocks": n(400, 8000), "gridpercase": 64}),
+        RunSpec("interp", "d", fl, n(6000, 60000)),
+        RunSpec("interp", "Q", fl, n(2400, 20000)),
+        RunSpec("quad", "d", fl, n(24000, 300000)),
+    ]
+    if with_expr:
+        runs += expr_runs(tier, seed, flavour=fl, scalars=("d", "Q"),
+                          nrandom=q(tier, 8, 120),
+                          cases_per_tu=n(3600, 9000))
+    if with_examples and fl in ("asan", "asan-clang", "dbgstl"):
+        runs += [ex_spec("DIFFUSION", ["diffusion.cpp"], fl, n(45, 900), 15),
+                 ex_spec("POTENTIAL", ["spline-potential.cpp"], fl, n(24, 240),
+                         12)]
+    return runs
+
+
+def c09_runs(tier, seed):
+    runs = san_runs(tier, seed, "asan")
+    if tier == "thorough":
+        runs += san_runs(tier, seed, "asan-clang", 0.3)
+        runs += san_runs(tier, seed, "dbgstl", 0.3)
+        vg = san_runs(tier, seed, "vg", 0.01, with_expr=False,
+                      with_examples=False)
+        for r in vg:
+            r.wrapper = ["valgrind", "--quiet", "--error-exitcode=77",
+                         "--track-origins=no", "--num-callers=12"]
+            r.shards = 16
+            r.timeout = 4 * 3600
+        runs += vg
+    return runs
+
+
+reg(Spec(
+    "C09", "no operation touches memory outside its objects or runs into UB",
+    c09_runs,
+    rule=("first sentence - sanitizers as the oracle: every driver of this "
+          "framework (generator, evaluation, pool-machine histories incl. "
+          "moved-from and interval-free objects and refused calls, primitive "
+          "operators, generated operator-expression programs with spline "
+          "factors in every placement, forms, cross-grid calls, accessors, "
+          "validation, interpolation, quadrature, the diffusion and "
+          "spline-potential examples) is rebuilt with g++ -fsanitize=address,"
+          "undefined -fno-sanitize-recover=all -D_GLIBCXX_ASSERTIONS and re-run "
+          "with the same seeds; an ASan/UBSan report, libstdc++ assertion or "
+          "fatal signal is a violation keyed by (kind, innermost frame under "
+          "the repository); functional-oracle output belongs to the other "
+          "checks. Thorough adds clang's ASan/UBSan, checked STL "
+          "(-D_GLIBCXX_DEBUG) and valgrind memcheck (uninitialised values). "
+          "Second sentence - checked accessors: for every window of every grid "
+          "of 2..7 points and every index in {0..n+2, 2^63-1, 2^63, 2^64-1-k, "
+          "2^64-start+j}: Grid::at, Support::at, absoluteFromRelative, front, "
+          "back throw BSplineException iff the index is outside the view and "
+          "otherwise return the element of the view. Distinct/non-trivial as "
+          "defined by each driver."),
+    required=["index-probes:near-SIZE_MAX", "index-probes:outside",
+              "place:op-factor:PARTIAL_L", "place:op-factor:TOUCH",
+              "factor-window:ends-inside-operand", "step:move-assign",
+              "step:fail-add-assign", "apply", "bilinear", "linear",
+              "diffusion:solves", "potential:partial-support", "problems",
+              "calls"],
+    assumptions=["a clean sanitizer run is not memory safety: non-adjacent "
+                 "overflows and reuse of quarantined memory can be missed; "
+                 "libstdc++ assertions close the intra-vector std::array gap",
+                 "leak freedom is not part of the property", "unchecked "
+                 "subscripts are only ever called in range"],
+    evaluations=None,
+    crash_kinds=MEM_KINDS,
+    technique="compiler sanitizers (ASan+UBSan, libstdc++ assertions; "
+              "thorough: clang, checked STL, valgrind memcheck) over the "
+              "workloads of all other checks + exhaustive accessor-bounds "
+              "oracle"))
+
 # ------------------------------------------------- pool machine: C03/10/14/15
 POOL_RULE = ("one case = one history of 150 steps over a pool of 15 splines "
              "(orders 0..4, three slots each, on a grid of 6..10 points held in "
